@@ -10,6 +10,7 @@ EXTENDS Shamir, TLC
 
 CONSTANTS NMax,     \* largest party count
           Slack     \* 0: dealt degree = threshold (the design); +1 / -1: the two classic wrong designs
+SlackMinus1 == 0 - 1    \* a configuration file cannot hold a negative number: Slack <- SlackMinus1
 
 VARIABLES XS, t, poly
 vars == <<XS, t, poly>>
@@ -37,6 +38,9 @@ SignShareSum == \A S \in SUBSET XS : Cardinality(S) > t => Interp0(S, Shares) = 
 TSharesHideKey ==
   t >= 1 => \A S \in Subsets(t) :
      Cardinality({p \in PolysUpTo(t) : \A x \in S : Share(p, x) = Share(poly, x)}) = Q
+\* ... and no t shares interpolate to the key: p - q_S = a_t * prod(x - x_i) does not vanish at 0 when the leading coefficient
+\* a_t is non-zero (the law that a dealt degree of t-1 breaks; judge.ConsistentSharing checks it on the real shares)
+DegreeExactlyT == t >= 1 => \A S \in Subsets(t) : Interp0(S, Shares) # Key(poly)
 \* C08: a refresh keeps the key and the consistency, and mixing epochs can miss the key
 RefreshKeepsKey == \A z \in ZeroConst(t) : \A S \in Subsets(t + 1) : Interp0(S, NewShares(z)) = Key(poly)
 MixedEpochsMiss ==
